@@ -1,4 +1,5 @@
 import Qvnt.Props.C15
+import Qvnt.Props.Code.C15
 open Qvnt
 #print axioms C15_plain
 #print axioms C15_swapped
@@ -11,3 +12,8 @@ open Qvnt
 #print axioms C15_phase_gate
 #print axioms C15_inverse
 #print axioms C15_inverse_swapped
+#print axioms genPhase_real
+#print axioms C15_code_qft
+#print axioms C15_code_qft_swapped
+#print axioms C15_code_inverse
+#print axioms powi_half
